@@ -152,6 +152,21 @@ Definition get_interp_name (stream : list Z) (p_offset : Z) : res (list Z) :=
   | None => Err EParse
   end.
 
+(* The Segment object ELFFile.get_segment(i) builds: _make_segment(struct_parse(Elf_Phdr, e_phoff + i*e_phentsize)),
+   i.e. Segment(header, stream) with header = the parsed record.  data() and get_interp_name() read
+   p_offset / p_filesz resp. p_offset of that record and nothing else of it. *)
+Definition Segment_data (stream : list Z) (seg : list (string * fval)) : list Z :=
+  segment_data stream (rec_z seg "p_offset") (rec_z seg "p_filesz").
+Definition InterpSegment_get_interp_name (stream : list Z) (seg : list (string * fval)) : res (list Z) :=
+  get_interp_name stream (rec_z seg "p_offset").
+(* elf.get_segment(i).data() / .get_interp_name() with the program header at file position [pos] *)
+Definition segment_data_at (stream : list Z) (le is64 : bool) (pos : Z) : res (list Z) :=
+  do seg <- struct_parse_at (gen_Elf_Phdr le is64) stream pos;
+  Ok (Segment_data stream seg).
+Definition interp_name_at (stream : list Z) (le is64 : bool) (pos : Z) : res (list Z) :=
+  do seg <- struct_parse_at (gen_Elf_Phdr le is64) stream pos;
+  InterpSegment_get_interp_name stream seg.
+
 (* ELFFile.address_offsets over iter_segments(type='PT_LOAD'):
      for i in range(num_segments): segment = get_segment(i)   # struct_parse(Elf_Phdr, e_phoff + i*e_phentsize)
        if segment['p_type'] == 'PT_LOAD':
